@@ -18,14 +18,14 @@ var commonAssumptions = []string{
 var plans = map[string]plan{
 	"C08": {
 		Level:    "exploration",
-		Rule:     "case = (requested type, input bytes) run through all 5 skipping facilities (7 configurations); inputs: bounded-exhaustive strings over a 15-symbol grammar alphabet, mutated valid encodings (truncate/substitute/size-window/splice/insert/delete), huge size fields, nesting 1..70 per container kind and through every entry position, size fields 0x7fffffff..0xffffffff really followed by that many (untouched, mapped) bytes, a follow-up call on the same decoder after every rejection. Non-trivial iff the oracle rejects the input or accepts it with nesting >= 2; distinct by (type, bytes). Also: one SkipDecoder whose reader is also read directly between two Next calls (values and raw bytes alternating on bytes-backed, stream-backed and foreign readers, stream possibly ending in a cut-short value); the stream-backed skippers run over standard-library readers (bytes.Reader, strings.Reader, bufio, iotest, Limit/Multi/Section) a quarter of the time. A struct walked field by field on ReaderSkipDecoder: headers with the exported SkipN, values with Next.",
+		Rule:     "case = (requested type, input bytes) run through all 5 skipping facilities (7 configurations); inputs: bounded-exhaustive strings over a 15-symbol grammar alphabet, mutated valid encodings (truncate/substitute/size-window/splice/insert/delete), huge size fields, nesting 1..70 per container kind and through every entry position, size fields 0x7fffffff..0xffffffff really followed by that many (untouched, mapped) bytes, a follow-up call on the same decoder after every rejection. Non-trivial iff the oracle rejects the input or accepts it with nesting >= 2; distinct by (type, bytes). Also: one SkipDecoder whose reader is also read directly between two Next calls (values and raw bytes alternating on bytes-backed, stream-backed and foreign readers, stream possibly ending in a cut-short value); the stream-backed skippers run over standard-library readers (bytes.Reader, strings.Reader, bufio, iotest, Limit/Multi/Section) a quarter of the time. A struct walked field by field on ReaderSkipDecoder: headers with the exported SkipN, values with Next. The exported skip template run directly over each of the three decoders (accept / reject judged).",
 		Required: []string{"oracle-accept judged", "oracle-reject judged", "nesting>=65 cases"},
 		Quick:    []job{{"plain", 8}},
 		Thorough: []job{{"gcstress", 4}, {"plain", 16}, {"race", 4}, {"go126", 4}, {"fuzz", 3}},
 	},
 	"C02": {
 		Level:    "exploration",
-		Rule:     "case = 1..3 well-formed values (generated typed trees) back-to-back + 0..64 trailing bytes on ONE instance of each skipper, under one of 6 fragmentation schedules, optionally with the final data delivered together with io.EOF; plus the full container x key-type x value-type x size grid under all schedules, nesting 1..63 for every container kind, strings around the 4096/8192 boundaries, multi-megabyte values incl. release-after-huge-value histories with co-tenants of the buffer pool. Non-trivial iff a value has nesting >= 2, or is a container > 20 bytes, or is > 4096 bytes; distinct by (value shapes, bytes, trailing length, schedule, eof mode). Histories of 4-16 values on one stream-backed reader that is released after about every second value (strings up to 70000 bytes); ReaderSkipDecoder over a source that is drained, polled (io.EOF) and refilled.",
+		Rule:     "case = 1..3 well-formed values (generated typed trees) back-to-back + 0..64 trailing bytes on ONE instance of each skipper, under one of 6 fragmentation schedules, optionally with the final data delivered together with io.EOF; plus the full container x key-type x value-type x size grid under all schedules, nesting 1..63 for every container kind, strings around the 4096/8192 boundaries, multi-megabyte values incl. release-after-huge-value histories with co-tenants of the buffer pool. Non-trivial iff a value has nesting >= 2, or is a container > 20 bytes, or is > 4096 bytes; distinct by (value shapes, bytes, trailing length, schedule, eof mode). Histories of 4-16 values on one stream-backed reader that is released after about every second value (strings up to 70000 bytes); ReaderSkipDecoder over a source that is drained, polled (io.EOF) and refilled. A quarter of the ReaderSkipDecoder streams end at the last value's last byte with an error (io.EOF or another) delivered together with the data.",
 		Required: []string{"values skipped", "reader-skip-decoder values", "grid combinations", "long-string cases"},
 		Quick:    []job{{"plain", 8}},
 		Thorough: []job{{"gcstress", 4}, {"plain", 16}, {"race", 4}},
@@ -39,14 +39,14 @@ var plans = map[string]plan{
 	},
 	"C04": {
 		Level:    "fault_enumeration",
-		Rule:     "case = operation history over {Next,Peek,Skip,ReadBinary}x{0,1,7,4095,4096,4097,8193,20000} + Release (bounded-exhaustive to length 3/4 over these 33 symbols x 6 source behaviours; random to 300 steps incl. negative counts) x hostile source (chunk schedule, zero-byte reads, error kind, error position, error with/after the final data; every error position of every stream <= 64 bytes; endless zero-read source) for the io.Reader-backed and the bytes-backed reader. Every result is checked online against a cursor model over a position-coded stream. Non-trivial iff the history saw a growth (request > 4096 or > 1 pool malloc), a request spanning >= 2 source reads, a surfaced error, or a Release with an unread buffered tail; distinct by (ops, source behaviour, reader kind). Also: 1-5 MiB consumed and peeked between two Releases with every slice kept; 0..99 empty reads between the last data and the error, for every count.",
+		Rule:     "case = operation history over {Next,Peek,Skip,ReadBinary}x{0,1,7,4095,4096,4097,8193,20000} + Release (bounded-exhaustive to length 3/4 over these 33 symbols x 6 source behaviours; random to 300 steps incl. negative counts) x hostile source (chunk schedule, zero-byte reads, error kind, error position, error with/after the final data; every error position of every stream <= 64 bytes; endless zero-read source) for the io.Reader-backed and the bytes-backed reader. Every result is checked online against a cursor model over a position-coded stream. Non-trivial iff the history saw a growth (request > 4096 or > 1 pool malloc), a request spanning >= 2 source reads, a surfaced error, or a Release with an unread buffered tail; distinct by (ops, source behaviour, reader kind). Also: 1-5 MiB consumed and peeked between two Releases with every slice kept; 0..99 empty reads between the last data and the error, for every count. 66000 Release cycles on one reader.",
 		Required: []string{"errors surfaced", "histories with growth", "releases with unread buffered tail", "errors delivered with data", "zero reads served", "error-position cases", "no-progress histories"},
 		Quick:    []job{{"plain", 8}, {"poison", 4}},
 		Thorough: []job{{"gcstress", 4}, {"plain", 16}, {"poison", 8}},
 	},
 	"C05": {
 		Level:    "fault_enumeration",
-		Rule:     "case = operation history over {Malloc eager, Malloc lazily-filled, WriteBinary}x{0,1,3,4095,4096,4097,8193,20000} + Flush (bounded-exhaustive to length 3/4 over 25 symbols x 7 configurations; random to 180 steps) x sink behaviour (never fails / fails at the k-th Write for every k) x writer kind (io.Writer-backed; bytes-backed over nil / empty-with-capacity / partial / full initial slices). Regions get distinct content, lazily filled ones only right before Flush in shuffled order. Checked online against a region/concatenation model. Non-trivial iff >= 1 growth between flushes (> 4096 unflushed bytes), a lazily filled region, a sink failure or >= 2 flushes; distinct by (ops, configuration). Also: sinks that fail once and accept writes again afterwards (the error must stick and nothing more may reach the sink); 1-5 MiB accumulated between two flushes in many lazily filled pieces.",
+		Rule:     "case = operation history over {Malloc eager, Malloc lazily-filled, WriteBinary}x{0,1,3,4095,4096,4097,8193,20000} + Flush (bounded-exhaustive to length 3/4 over 25 symbols x 7 configurations; random to 180 steps) x sink behaviour (never fails / fails at the k-th Write for every k) x writer kind (io.Writer-backed; bytes-backed over nil / empty-with-capacity / partial / full initial slices). Regions get distinct content, lazily filled ones only right before Flush in shuffled order. Checked online against a region/concatenation model. Non-trivial iff >= 1 growth between flushes (> 4096 unflushed bytes), a lazily filled region, a sink failure or >= 2 flushes; distinct by (ops, configuration). Also: sinks that fail once and accept writes again afterwards (the error must stick and nothing more may reach the sink); 1-5 MiB accumulated between two flushes in many lazily filled pieces. 66000 flush cycles on one writer; bytes-writer targets that are non-nil with capacity 0.",
 		Required: []string{"flushes", "histories with growth", "histories with lazily filled regions", "sink failures injected", "bytes-writer flushes judged", "fail-at-every-k histories"},
 		Quick:    []job{{"plain", 8}, {"poison", 4}},
 		Thorough: []job{{"gcstress", 4}, {"plain", 16}, {"poison", 8}},
@@ -60,7 +60,7 @@ var plans = map[string]plan{
 	},
 	"C01": {
 		Level:    "exploration",
-		Rule:     "case = sequence of 1..40 codec values (bool, byte, i16, i32, i64, double, string, binary, field begin/stop, map/list/set begin with sizes up to 2^31-1, message begin) written by the in-place writer (into an exact-length canary-margined buffer), the appending writer (onto a random prefix/capacity) and the stream writer (over a recording io.Writer and over a bytes writer), each compared byte-for-byte with an independent big-endian encoder and with the advertised length; then decoded by the buffer reader at running offsets (input in a guard-page arena) and by the stream reader over a hostile source (6 fragmentation schedules, zero-byte reads, EOF with data) and over a bytes reader. Exhaustive over all bool/i8/i16 (thorough: all 2^32 i32), boundary string lengths (thorough: every length 0..9000). Non-trivial iff >= 2 kinds, or a string > 4000 bytes, or a fragmenting schedule; distinct by (values, schedule). Also: the bytes-backed writer under the stream writer starts from targets with initial contents / spare capacity. The no-copy length / writer functions without a direct writer are judged like the plain pair; the stream writer also runs over a foreign bufiox.Writer that keeps WriteBinary payloads by reference and reads nothing before Flush.",
+		Rule:     "case = sequence of 1..40 codec values (bool, byte, i16, i32, i64, double, string, binary, field begin/stop, map/list/set begin with sizes up to 2^31-1, message begin) written by the in-place writer (into an exact-length canary-margined buffer), the appending writer (onto a random prefix/capacity) and the stream writer (over a recording io.Writer and over a bytes writer), each compared byte-for-byte with an independent big-endian encoder and with the advertised length; then decoded by the buffer reader at running offsets (input in a guard-page arena) and by the stream reader over a hostile source (6 fragmentation schedules, zero-byte reads, EOF with data) and over a bytes reader. Exhaustive over all bool/i8/i16 (thorough: all 2^32 i32), boundary string lengths (thorough: every length 0..9000). Non-trivial iff >= 2 kinds, or a string > 4000 bytes, or a fragmenting schedule; distinct by (values, schedule). Also: the bytes-backed writer under the stream writer starts from targets with initial contents / spare capacity. The no-copy length / writer functions without a direct writer are judged like the plain pair; the stream writer also runs over a foreign bufiox.Writer that keeps WriteBinary payloads by reference and reads nothing before Flush. Bytes-writer targets that are non-nil with capacity 0; values appended that already lie in the destination's spare capacity.",
 		Required: []string{"values round-tripped", "stream bytes compared", "string-length cases"},
 		Quick:    []job{{"plain", 8}},
 		Thorough: []job{{"gcstress", 4}, {"plain", 16}, {"race", 4}},
@@ -81,7 +81,7 @@ var plans = map[string]plan{
 	},
 	"C07": {
 		Level:    "exploration",
-		Rule:     "case = load/reload/query history on StrMap[int], StrMap[struct] and Str2Str instances: key sets of sizes around every entry of the prime table (0..1000, thorough up to 2*10^5) with adversarial key shapes (empty key, all proper prefixes of a long key, shared prefixes/suffixes, one-bit near-duplicates, mixed and equal lengths), LoadFromMap/LoadFromSlice sequences growing and shrinking one instance, failed (length-mismatch) loads in between, never-loaded and empty maps; probes = every key, key +/- one byte, prefixes, suffixes, bit-flips, keys of earlier rounds, random strings; every answer (Get, Len, Item enumeration) compared with a Go map. Fresh instances per case give fresh hash seeds. Non-trivial iff n >= 2 or a reload or an empty/prefix key; distinct by case index (hash seeds differ per instance). Also: loads with one key twice (outside the domain: judged only when refused - a refused load changes nothing). A load that fails with a recovered panic (2^48 key bytes) is a failed load too.",
+		Rule:     "case = load/reload/query history on StrMap[int], StrMap[struct] and Str2Str instances: key sets of sizes around every entry of the prime table (0..1000, thorough up to 2*10^5) with adversarial key shapes (empty key, all proper prefixes of a long key, shared prefixes/suffixes, one-bit near-duplicates, mixed and equal lengths), LoadFromMap/LoadFromSlice sequences growing and shrinking one instance, failed (length-mismatch) loads in between, never-loaded and empty maps; probes = every key, key +/- one byte, prefixes, suffixes, bit-flips, keys of earlier rounds, random strings; every answer (Get, Len, Item enumeration) compared with a Go map. Fresh instances per case give fresh hash seeds. Non-trivial iff n >= 2 or a reload or an empty/prefix key; distinct by case index (hash seeds differ per instance). Also: loads with one key twice (outside the domain: judged only when refused - a refused load changes nothing). A load that fails with a recovered panic (2^48 key bytes) is a failed load too. One instance reloaded 2^16, 2^17 and 2^16+9 times between two 60-key loads.",
 		Required: []string{"map queries compared", "failed loads checked", "never-loaded/empty cases", "load cycles"},
 		Quick:    []job{{"plain", 8}, {"hooks", 2}},
 		Thorough: []job{{"gcstress", 4}, {"plain", 16}, {"race", 4}, {"hooks", 4}},
@@ -95,21 +95,21 @@ var plans = map[string]plan{
 	},
 	"C12": {
 		Level:    "exploration",
-		Rule:     "case = (method name of 0..70000 arbitrary bytes, message type, sequence id) through WriteMessageBegin / AppendMessageBegin / BufferWriter.WriteMessageBegin vs an independent encoder and MessageBeginLength, read back by Binary.ReadMessageBegin (guard-page arena) and BufferReader.ReadMessageBegin over a fragmenting source; all 65536 message types; all 65536 first-word high halves x 5 low halves (must be accepted iff 0x8001, else BAD_VERSION on both readers); every truncation point and negative name lengths (both readers and UnmarshalFastMsg must fail); MarshalFastMsg -> UnmarshalFastMsg round trips with BaseResp payloads; EXCEPTION messages must surface as *ApplicationException with type id and text and leave the caller's struct untouched (also when the exception body is cut at any point: an error, nothing decoded). Every case is non-trivial; distinct by its parameters. Also: every header is also read from a source holding nothing else (no Read call after its last byte was delivered); an unmarked first word in front of a well-formed header must still be a bad version for both readers and UnmarshalFastMsg. Application-defined payload structs (a linked chain with its own codec, 1..1000 levels deep, byte fields around the no-copy threshold).",
+		Rule:     "case = (method name of 0..70000 arbitrary bytes, message type, sequence id) through WriteMessageBegin / AppendMessageBegin / BufferWriter.WriteMessageBegin vs an independent encoder and MessageBeginLength, read back by Binary.ReadMessageBegin (guard-page arena) and BufferReader.ReadMessageBegin over a fragmenting source; all 65536 message types; all 65536 first-word high halves x 5 low halves (must be accepted iff 0x8001, else BAD_VERSION on both readers); every truncation point and negative name lengths (both readers and UnmarshalFastMsg must fail); MarshalFastMsg -> UnmarshalFastMsg round trips with BaseResp payloads; EXCEPTION messages must surface as *ApplicationException with type id and text and leave the caller's struct untouched (also when the exception body is cut at any point: an error, nothing decoded). Every case is non-trivial; distinct by its parameters. Also: every header is also read from a source holding nothing else (no Read call after its last byte was delivered); an unmarked first word in front of a well-formed header must still be a bad version for both readers and UnmarshalFastMsg. Application-defined payload structs (a linked chain with its own codec, 1..1000 levels deep, byte fields around the no-copy threshold). Exception bodies as other Thrift implementations write them (type id first, unknown fields, empty message omitted).",
 		Required: []string{"envelopes round-tripped", "first words tried", "truncation sweeps", "messages round-tripped", "exception messages"},
 		Quick:    []job{{"plain", 8}},
 		Thorough: []job{{"gcstress", 4}, {"plain", 16}},
 	},
 	"C13": {
 		Level:    "exploration",
-		Rule:     "case = sequence of 1..5 typed fields (generated value trees of every type, nesting <= 5, any field ids, canonical booleans) encoded by the independent encoder: ConvertUnknownFields must yield exactly the generator-built expected tree (IDs, Type, KeyType/ValType only on containers, element IDs = index, doubles by bit pattern), UnknownFieldsLength must equal the byte count, WriteUnknownFields must reproduce the bytes, and the expected tree must survive write-then-convert. Plus the full 11x11 grid of (container field, following sibling) pairs inside nested structs under 4 wrappings and the container x key x value x size grid. Non-trivial iff a container is present; distinct by field trees. Every generated field list is also written inside a hand-built tree that refers to it three times.",
+		Rule:     "case = sequence of 1..5 typed fields (generated value trees of every type, nesting <= 5, any field ids, canonical booleans) encoded by the independent encoder: ConvertUnknownFields must yield exactly the generator-built expected tree (IDs, Type, KeyType/ValType only on containers, element IDs = index, doubles by bit pattern), UnknownFieldsLength must equal the byte count, WriteUnknownFields must reproduce the bytes, and the expected tree must survive write-then-convert. Plus the full 11x11 grid of (container field, following sibling) pairs inside nested structs under 4 wrappings and the container x key x value x size grid. Non-trivial iff a container is present; distinct by field trees. Every generated field list is also written inside a hand-built tree that refers to it three times. The bytes are also fetched through structs that embed the holder by value and by pointer.",
 		Required: []string{"field sequences round-tripped", "sibling-tag cases", "combo-grid cases"},
 		Quick:    []job{{"plain", 8}},
 		Thorough: []job{{"gcstress", 4}, {"plain", 16}},
 	},
 	"C15": {
 		Level:    "exploration",
-		Rule:     "case = sequence of 1..8 WriteStringNocopy/WriteBinaryNocopy calls with lengths {0,1,100,4094,4095,4096,4097,8192,12288,20000} (exhaustive over all triples) into a linear buffer that is a window of a larger block (spare capacity 0/1/64), with a recording direct writer whose pieces are spliced independently at len(buf)-remainCap and compared with the copying-path bytes from an independent encoder; returned offset + direct pieces must equal the advertised length; nil writer must be byte-identical to the copying path; Base/BaseResp with every small/large field combination (byte compare when the map has <= 1 entry, decode compare otherwise), FastMarshal. Non-trivial iff >= 1 value >= 4096 with a writer attached; distinct by (length vector, API sequence, spare, writer). Also: values of 1-3 MiB alone and between small neighbours; struct field lengths of 1500-4000 so that a map key and its value straddle the threshold together. Direct writers that are struct values; unset (nil) Base / BaseResp with a direct writer attached.",
+		Rule:     "case = sequence of 1..8 WriteStringNocopy/WriteBinaryNocopy calls with lengths {0,1,100,4094,4095,4096,4097,8192,12288,20000} (exhaustive over all triples) into a linear buffer that is a window of a larger block (spare capacity 0/1/64), with a recording direct writer whose pieces are spliced independently at len(buf)-remainCap and compared with the copying-path bytes from an independent encoder; returned offset + direct pieces must equal the advertised length; nil writer must be byte-identical to the copying path; Base/BaseResp with every small/large field combination (byte compare when the map has <= 1 entry, decode compare otherwise), FastMarshal. Non-trivial iff >= 1 value >= 4096 with a writer attached; distinct by (length vector, API sequence, spare, writer). Also: values of 1-3 MiB alone and between small neighbours; struct field lengths of 1500-4000 so that a map key and its value straddle the threshold together. Direct writers that are struct values; unset (nil) Base / BaseResp with a direct writer attached. One struct case in forty carries 33-44 map entries whose key and value are above the threshold.",
 		Required: []string{"direct pieces spliced", "nocopy sequences", "nil-writer sequences", "struct cases"},
 		Quick:    []job{{"plain", 8}},
 		Thorough: []job{{"gcstress", 4}, {"plain", 16}},
@@ -123,7 +123,7 @@ var plans = map[string]plan{
 	},
 	"C17": {
 		Level:    "exploration",
-		Rule:     "case = (entry point, malformed input) classified by the independent grammar oracle into cause sets {TRUNCATED, NEGATIVE, UNKNOWN_TYPE, DEPTH}: the error of Binary.Skip / Binary.Read* / ReadMessageBegin must be (or wrap) a *ProtocolException whose TypeId is in the accepted set (TRUNCATED, UNKNOWN_TYPE -> INVALID_DATA; NEGATIVE -> NEGATIVE_SIZE; bad first word -> BAD_VERSION; nesting >= 64 -> also DEPTH_LIMIT; simultaneous causes -> any). Inputs: grammar-alphabet strings (exhaustive), mutated encodings, negative sizes in every size position for all 11x11 element types, nesting 60..70. Stream reader: valid streams cut at every position with every injected error value (io.EOF, io.ErrUnexpectedEOF, two custom) with/after the final data: errors.Is(err, sourceErr) must hold for every Read*/Skip. Every case is a failure-class instance; distinct by (input, type). Also: stream failures after runs of 1..99 empty reads between the last data and the error. The stream runs release the reader between values now and then.",
+		Rule:     "case = (entry point, malformed input) classified by the independent grammar oracle into cause sets {TRUNCATED, NEGATIVE, UNKNOWN_TYPE, DEPTH}: the error of Binary.Skip / Binary.Read* / ReadMessageBegin must be (or wrap) a *ProtocolException whose TypeId is in the accepted set (TRUNCATED, UNKNOWN_TYPE -> INVALID_DATA; NEGATIVE -> NEGATIVE_SIZE; bad first word -> BAD_VERSION; nesting >= 64 -> also DEPTH_LIMIT; simultaneous causes -> any). Inputs: grammar-alphabet strings (exhaustive), mutated encodings, negative sizes in every size position for all 11x11 element types, nesting 60..70. Stream reader: valid streams cut at every position with every injected error value (io.EOF, io.ErrUnexpectedEOF, two custom) with/after the final data: errors.Is(err, sourceErr) must hold for every Read*/Skip. Every case is a failure-class instance; distinct by (input, type). Also: stream failures after runs of 1..99 empty reads between the last data and the error. The stream runs release the reader between values now and then. Half of the releases between values pass a non-nil reason to Release.",
 		Required: []string{"skip failures classified", "reader failures classified", "message-begin failures classified", "stream failures classified", "negative-size cases", "source-error sweeps"},
 		Quick:    []job{{"plain", 8}},
 		Thorough: []job{{"gcstress", 4}, {"plain", 16}},
@@ -151,7 +151,7 @@ var plans = map[string]plan{
 	},
 	"C14": {
 		Level:       "exploration",
-		Rule:        "case = one execution: G goroutines (8..64) at GOMAXPROCS 2..16, each running hundreds of create/use/release cycles of every pooled type (BufferWriter/BufferReader over DefaultWriter/DefaultReader with yielding sinks and sources, the three skip decoders incl. values > 4 KiB, TTHeader bytes- and stream-backed, Binary.ReadString/ReadBinary with the span allocator on, FastMarshal/FastUnmarshal, MarshalFastMsg) with payload bytes that encode (goroutine, iteration, offset), plus Get/Item/Len on freshly loaded shared maps whose first lookups happen concurrently. Oracles: the Go race detector (reports parsed from the log, de-duplicated by stack pair) and each goroutine's comparison with its own expected bytes. The monitor keeps only goroutine-local state until the join, so it adds no synchronisation. Builds: -race, -race with the yield-injecting pool shim (thorough), plain at 10x iterations (contamination only). Non-trivial iff pooled objects were observed in >= 2 goroutines in that execution; distinct by (build, G, P, repetition, seed). Also: acquire/release storms - all goroutines do nothing but take, use once and release one pooled type (the three skip decoders, BufferReader, BufferWriter) - with an ownership monitor (one atomic cell per object address, claimed on leaving the constructor, cleared before Release/Recycle).",
+		Rule:        "case = one execution: G goroutines (8..64) at GOMAXPROCS 2..16, each running hundreds of create/use/release cycles of every pooled type (BufferWriter/BufferReader over DefaultWriter/DefaultReader with yielding sinks and sources, the three skip decoders incl. values > 4 KiB, TTHeader bytes- and stream-backed, Binary.ReadString/ReadBinary with the span allocator on, FastMarshal/FastUnmarshal, MarshalFastMsg) with payload bytes that encode (goroutine, iteration, offset), plus Get/Item/Len on freshly loaded shared maps whose first lookups happen concurrently. Oracles: the Go race detector (reports parsed from the log, de-duplicated by stack pair) and each goroutine's comparison with its own expected bytes. The monitor keeps only goroutine-local state until the join, so it adds no synchronisation. Builds: -race, -race with the yield-injecting pool shim (thorough), plain at 10x iterations (contamination only). Non-trivial iff pooled objects were observed in >= 2 goroutines in that execution; distinct by (build, G, P, repetition, seed). Also: acquire/release storms - all goroutines do nothing but take, use once and release one pooled type (the three skip decoders, BufferReader, BufferWriter) - with an ownership monitor (one atomic cell per object address, claimed on leaving the constructor, cleared before Release/Recycle). One execution in four loads a shared map of about 290000 keys last and queries it first; the failing cycle checks that a failed FastRead's error names its own struct once and does not change.",
 		Required:    []string{"pooled objects used by >= 2 goroutines", "executions", "cycles writer+reader", "cycles skip-decoders", "cycles ttheader", "cycles binary+fastcodec", "cycles shared-maps", "cycles own-maps", "cycles peek-retain", "cycles unknown-fields", "cycles shared-header-param"},
 		Assumptions: []string{"absence of a race report says nothing about interleavings that were not produced"},
 		Quick:       []job{{"race", 4}, {"plain", 2}},
